@@ -381,7 +381,7 @@ def run_rotator_histories(ctx, rng, N):
 
 
 def run(ctx):
-    C.setup_impl_env()
+    C.setup_impl_env(prior_use=0)
     rng = ctx.rng.child("c14").np
     run_histories(ctx, rng, ctx.n(45, 900), ctx.n(8, 40))
     run_histories_stacked(ctx, rng, ctx.n(18, 300), ctx.n(7, 20))
